@@ -134,12 +134,14 @@ Proof. unfold m_candidate. apply sim_bind; [apply sim_event_data|intros; apply s
 Lemma sim_post_save k now w : sim k (post_save (Some k) now w) (post_save None now w).
 Proof.
   unfold post_save. destruct (_ || _).
-  - unfold replace_older. repeat sim_step. destruct (bytes_eqb x a); [apply sim_ret|].
+  - unfold replace_older. apply sim_bind; [apply sim_of_opt|intros saved]. apply sim_bind; [apply sim_scan|intros ids].
+    apply sim_iter. intros eid. destruct (bytes_eqb eid saved); [apply sim_ret|].
     apply sim_bind; [apply sim_candidate|intros c]. destruct c; [|apply sim_fail].
     destruct (_ && _); [apply sim_ret|apply sim_delete_event].
   - destruct (w_kind w =? 5)%Z; [|apply sim_ret].
-    unfold delete_referenced. destruct (e_ref_ids w); [apply sim_ret|].
-    repeat sim_step. destruct (mem_bytes x (l0 :: l)); [|apply sim_ret].
+    unfold delete_referenced. destruct (e_ref_ids w) as [|r0 rs]; [apply sim_ret|].
+    apply sim_bind; [apply sim_scan|intros found]. apply sim_iter. intros eid.
+    destruct (mem_bytes eid (r0 :: rs)); [|apply sim_ret].
     apply sim_bind; [apply sim_candidate|intros c]. destruct c; [apply sim_delete_event|apply sim_ret].
 Qed.
 
@@ -217,14 +219,14 @@ Proof. apply keeps_same. intros t. reflexivity. Qed.
 Lemma keeps_post_save fault now w : keeps (post_save fault now w).
 Proof.
   unfold post_save. destruct (_ || _).
-  - unfold replace_older. apply keeps_bind; [apply keeps_of_opt|intros]. apply keeps_bind; [apply keeps_scan|intros].
-    apply keeps_iter. intros eid. destruct (bytes_eqb eid a); [apply keeps_same; intros ?; reflexivity|].
+  - unfold replace_older. apply keeps_bind; [apply keeps_of_opt|intros saved]. apply keeps_bind; [apply keeps_scan|intros].
+    apply keeps_iter. intros eid. destruct (bytes_eqb eid saved); [apply keeps_same; intros ?; reflexivity|].
     apply keeps_bind; [apply keeps_candidate|intros c]. destruct c; [|apply keeps_same; intros ?; reflexivity].
     destruct (_ && _); [apply keeps_same; intros ?; reflexivity|apply keeps_delete_event].
   - destruct (w_kind w =? 5)%Z; [|apply keeps_same; intros ?; reflexivity].
-    unfold delete_referenced. destruct (e_ref_ids w); [apply keeps_same; intros ?; reflexivity|].
+    unfold delete_referenced. destruct (e_ref_ids w) as [|r0 rs]; [apply keeps_same; intros ?; reflexivity|].
     apply keeps_bind; [apply keeps_scan|intros]. apply keeps_iter. intros eid.
-    destruct (mem_bytes eid (l0 :: l)); [|apply keeps_same; intros ?; reflexivity].
+    destruct (mem_bytes eid (r0 :: rs)); [|apply keeps_same; intros ?; reflexivity].
     apply keeps_bind; [apply keeps_candidate|intros c]. destruct c; [apply keeps_delete_event|apply keeps_same; intros ?; reflexivity].
 Qed.
 Lemma keeps_op_body fault now op : keeps (op_body fault now op).
@@ -265,13 +267,11 @@ Proof.
   - rewrite rev_length. destruct (Nat.leb (length (t_log t')) k) eqn:E.
     + apply Nat.leb_le in E. replace (Nat.ltb k (length (t_log t'))) with false by (symmetry; apply Nat.ltb_ge; lia). reflexivity.
     + apply Nat.leb_gt in E. replace (Nat.ltb k (length (t_log t'))) with true by (symmetry; apply Nat.ltb_lt; lia).
-      f_equal. unfold cut. rewrite <- (rev_involutive (t_log t')) at 2. rewrite <- (rev_length (t_log t')).
-      rewrite skipn_rev, rev_involutive. rewrite rev_length. f_equal. rewrite rev_length. lia.
+      f_equal. unfold cut. rewrite firstn_rev. reflexivity.
   - rewrite rev_length. destruct (Nat.leb (length l) k) eqn:E.
     + apply Nat.leb_le in E. replace (Nat.ltb k (length l)) with false by (symmetry; apply Nat.ltb_ge; lia). reflexivity.
     + apply Nat.leb_gt in E. replace (Nat.ltb k (length l)) with true by (symmetry; apply Nat.ltb_lt; lia).
-      f_equal. unfold cut. rewrite <- (rev_involutive l) at 2. rewrite <- (rev_length l).
-      rewrite skipn_rev, rev_involutive. rewrite rev_length. f_equal. rewrite rev_length. lia.
+      f_equal. unfold cut. rewrite firstn_rev. reflexivity.
 Qed.
 Corollary fail_at_k_restores now d op k : (k < length (snd (run_op None None now d op)))%nat ->
   fst (fst (run_op (Some k) None now d op)) = d.
